@@ -67,6 +67,27 @@ def build_body(name: str, env, tval):
         raise AssertionError(name)
 
 
+def array_traffic(env) -> List[Any]:
+    """Per subroutine message sent so far: which arrays it declares and which it returns (read from the wire bytes).  A flush and a
+    compile/commit must leave the connection in the same state, so every later message declares and returns the same arrays."""
+    from netqasm.backend.messages import SubroutineMessage, deserialize_host_msg
+    from netqasm.lang.parsing import deserialize as deserialize_subroutine
+    out = []
+    for raw in env["conn"].sent:
+        msg = deserialize_host_msg(raw)
+        if not isinstance(msg, SubroutineMessage):
+            continue
+        sub = deserialize_subroutine(msg.subroutine, flavour=env.get("flavour"))
+        decl, ret = [], []
+        for ins in sub.instructions:
+            if ins.mnemonic == "array":
+                decl.append(ins.address.address)
+            elif ins.mnemonic == "ret_arr":
+                ret.append(ins.address.address)
+        out.append((decl, ret))
+    return out
+
+
 def observe(env) -> Dict[str, Any]:
     ctrl, conn = env["ctrl"], env["conn"]
     ex = ctrl.executor
@@ -88,7 +109,7 @@ def observe(env) -> Dict[str, Any]:
         _guard(exc)
         a0 = f"raised {type(exc).__name__}"
     mm = conn.builder._mem_mgr
-    return {"gates": list(ex.gate_trace), "arrays": arrays, "handles": hv, "A0": a0,
+    return {"gates": list(ex.gate_trace), "arrays": arrays, "handles": hv, "A0": a0, "array-traffic": array_traffic(env),
             "bookkeeping": {"arrays_to_return": len(mm._arrays_to_return), "registers_to_return": len(mm._registers_to_return),
                             "meas_used": len(simctl.meas_registers_in_use(mm)),
                             "active_registers": len(mm._active_registers), "pending": len(conn.builder._pending_commands)}}
@@ -105,7 +126,7 @@ def run_history(history, modes, value, nv: bool, templated: bool, chooser) -> Li
         kwargs["compiler"] = NVSubroutineTranspiler
     ctrl, conn = simctl.make_pair("alice", flavour=NVFlavour() if nv else None, **kwargs)
     ctrl.executor.chooser = chooser.outcome
-    env = {"conn": conn, "ctrl": ctrl, "handles": [], "segment": -1}
+    env = {"conn": conn, "ctrl": ctrl, "handles": [], "segment": -1, "flavour": NVFlavour() if nv else None}
     obs: List[Any] = []
     try:
         env["A0"] = conn.new_array(2, init_values=[5, 6])
